@@ -489,3 +489,54 @@ def judge_recsplit(c):
 
 
 JUDGES["recsplit"] = judge_recsplit
+
+
+def judge_graph(c):
+    """C01: impl vs the Run model (correspondence) and vs the demand-driven value of every declared
+    output (spec), both evaluated by the driver over the operator models."""
+    impl, model, spec = c["impl"], c.get("model") or {}, c.get("spec") or {}
+    g = c["graph"]
+    key = ("graph", c.get("stream"), len(g.get("nodes") or []), tuple(sorted({n["op"] for n in g.get("nodes") or []})), impl["status"])
+    ms = model.get("status")
+    if ms in (None, "unmodelled", "inexact"):
+        corr = "skip"
+    elif impl["status"] != ms:
+        corr = "disagree"
+    elif ms == "ok" and not outs_eq(impl.get("outs"), model.get("outs")):
+        corr = "disagree"
+    else:
+        corr = "agree"
+    verdict, what = "unjudged", ""
+    ss = spec.get("status")
+    if impl["status"] == "panic":
+        verdict, what = "violates", "Run panics: " + impl.get("msg", "")[:100]
+    elif impl["status"] == "ok" and any(o is None for o in impl.get("outs") or []):
+        verdict, what = "violates", "a declared output is missing / nil in the result without an error"
+    elif impl["status"] == "ok" and isinstance(impl.get("extra"), str):
+        verdict, what = "violates", impl["extra"]
+    elif ss == "ok":
+        if impl["status"] != "ok" and c.get("stream") == "malformed":
+            verdict = "holds"          # not a well-formed graph (node order / output count): an error is what is required
+        elif impl["status"] != "ok":
+            verdict, what = "violates", f"well-formed graph refused: {impl.get('msg','')[:100]}"
+        elif not outs_eq(impl.get("outs"), spec.get("outs")):
+            verdict, what = "violates", "an output differs from the dataflow value"
+        else:
+            verdict = "holds"
+    elif ss == "error":
+        # malformed graph / failing node / unknown operator: Run must report an error
+        if impl["status"] == "ok":
+            verdict, what = "violates", "Run returns outputs although a node fails / an output has no tensor"
+        elif spec.get("errkind") == "unsupportedOp" and impl.get("errkind") != "unsupportedOp":
+            verdict, what = "violates", "unknown operator not reported as the unsupported-operator error"
+        else:
+            verdict = "holds"
+    elif ss == "panic":
+        verdict = "unjudged"
+    tag = None
+    if verdict == "violates":
+        tag = "run." + (c.get("stream") or "graph") + "." + ("panic" if impl["status"] == "panic" else "error" if impl["status"] == "error" else "wrong")
+    return J(corr=corr, verdict=verdict, tag=tag, what=what, key=key, trivial=(corr == "skip" and verdict == "unjudged"))
+
+
+JUDGES["graph"] = judge_graph
